@@ -15,13 +15,38 @@ def run(ctx, replay):
     if r["ok"]:
         raise vlib.Inconclusive("vacuity guard: the model without the lock should violate the property")
     racelog = ctx.path("race")
-    ctx.drive(drv, ["c18", trace], timeout=1500, env={"GORACE": "halt_on_error=0 exitcode=0 log_path=" + racelog})
+    fatal = []
+
+    def drive_queue(binary, args, env=None, timeout=1500):
+        # the Go runtime ends the process when it sees unsynchronised map access ("fatal error: concurrent map ..."): that is
+        # the queue's doing, not the driver's - recorded as a violation, with whatever trace was written before
+        r = ctx.drive(binary, args, timeout=timeout, env=env, ok_codes=(0, 1, 2))
+        if r.returncode != 0:
+            m = re.search(r"fatal error: [^\n]*", r.stderr)
+            if not m:
+                raise vlib.Inconclusive("driver failed rc=%d: %s\n%s" % (r.returncode, " ".join(args), r.stderr[-3000:]))
+            fatal.append((m.group(0), r.stderr[-4000:]))
+    drive_queue(drv, ["c18", trace], env={"GORACE": "halt_on_error=0 exitcode=0 log_path=" + racelog})
     # the concurrent histories once more in a build without the race detector (its instrumentation changes who runs when)
     trace2 = ctx.path("c18_plain.ndjson")
-    ctx.drive(ctx.build_harness(), ["c18", trace2, "conc"], timeout=900)
+    drive_queue(ctx.build_harness(), ["c18", trace2, "conc"], timeout=900)
     with open(trace, "a") as f:
-        f.write(open(trace2).read())
-    events = vlib.read_ndjson(trace)
+        f.write("\n")
+        if os.path.exists(trace2):
+            f.write("".join(l for l in open(trace2) if l.strip().endswith("}")))
+    events = []
+    for line in open(trace):
+        line = line.strip()
+        if line.endswith("}"):
+            try:
+                events.append(json.loads(line))
+            except ValueError:
+                pass
+    if fatal:
+        # the trace may end in the middle of a line / a case: keep complete lines only
+        with open(trace, "w") as f:
+            for e in events:
+                f.write(json.dumps(e) + "\n")
     res = ctx.tlc_trace("C18_Trace", "C18_Trace.cfg", trace, timeout=1700)
     cases, cur = [], None
     for i, e in enumerate(events, 1):
@@ -40,9 +65,11 @@ def run(ctx, replay):
         ctx.count_case(sig, nontrivial=len(evs) > 2)
     ctx.extra["cases"] = kinds
     ctx.extra["events"] = len(events)
-    ctx.sample(events[cases[5][0] - 1:cases[5][1]])
-    cc = next(c for c in cases if c[2]["ev"] == "cnew")
-    ctx.sample(events[cc[0] - 1:cc[0] + 12])
+    if len(cases) > 5:
+        ctx.sample(events[cases[5][0] - 1:cases[5][1]])
+    cc = next((c for c in cases if c[2]["ev"] == "cnew"), None)   # (none if the process died in its first concurrent round)
+    if cc:
+        ctx.sample(events[cc[0] - 1:cc[0] + 12])
     seen = set()
     for i in res["bad"]:
         c = next((c for c in cases if c[0] <= i <= c[1]), None)
@@ -53,6 +80,8 @@ def run(ctx, replay):
         rec = dict(kind="concurrent" if c[2]["ev"] == "cnew" else "sequential", event=e["ev"], n=c[2]["n"])
         evs = events[c[0] - 1:c[1]]
         ctx.violation(rec, dict(events=evs[:400], rejected_event_index=i - c[0] + 1))
+    for what, err in fatal[:2]:
+        ctx.violation(dict(kind="fatal-runtime-error-under-concurrent-use", what=what[:60]), dict(stderr=err))
     races = [open(os.path.join(ctx.work, f)).read() for f in os.listdir(ctx.work) if f.startswith("race.")]
     ctx.extra["race_reports"] = len(races)
     for rep in races[:3]:
